@@ -3,7 +3,8 @@
 # property's quick check (restricted with -only where the full check is long), expects a VIOLATION and exit 1, and
 # restores /repo. Run after every engine change. Never run while another check is running (checks read /repo).
 # usage: selftest.sh [seed-id ...]
-cd /verif || exit 2
+cd "$(dirname "$0")" || exit 2
+HERE=$(pwd)
 declare -A ONLY=(
  [C03-A]="" [C03-B]="" [C04-A]="EchoRequest" [C04-B]="WriteRawRequest" [C05-A]="header" [C05-B]="NegotiateResponse"
  [C01-A]="" [C02-A]="" [C06-A]="" [C06-B]="" [C07-A]="" [C07-B]="" [C08-B]="" [C09-A]="" [C09-B]="" [C10-A]="" [C10-B]="" [C11-A]="" [C11-B]=""
@@ -14,21 +15,26 @@ declare -A ONLY=(
  [C10-C]="" [C10-D]="" [C11-C]="" [C11-D]="" [C12-C]="" [C12-D]="" [C13-C]="" [C13-D]="" [C15-C]="" [C15-D]="" [C16-C]="" [C16-D]=""
  [C19-C]="" [C19-D]="" [C20-C]="" [C20-D]=""
  [C08-A]="" [C14-C]="" [C14-D]=""
+ [C01-B]="" [C02-B]="" [C02-C]=""
+ [C01-E]="" [C01-F]="" [C02-E]="" [C02-F]="" [C03-F]="" [C04-E]="LockByteRangeRequest" [C04-F]="EchoRequest" [C05-E]="dialects" [C05-F]="data"
+ [C06-E]="" [C06-F]="" [C07-E]="" [C07-F]="" [C08-E]="" [C09-E]="" [C09-F]="" [C10-E]="" [C10-F]="" [C11-E]="" [C11-F]="" [C12-E]="" [C12-F]=""
+ [C13-E]="" [C13-F]="" [C14-F]="" [C15-E]="" [C15-F]="" [C16-E]="" [C16-F]="" [C19-E]="" [C19-F]="" [C20-E]="" [C20-F]=""
 )
+REPO="${VERIF_REPO:-/repo}"
 seeds=("$@"); [ ${#seeds[@]} -eq 0 ] && seeds=($(printf '%s\n' "${!ONLY[@]}" | sort))
 fail=0
 for s in "${seeds[@]}"; do
   prop=${s%-*}
-  patch=/verif/seeded/$s/patch.diff
-  [ -f /verif/seeded/$s/patch_rebased.diff ] && patch=/verif/seeded/$s/patch_rebased.diff
-  if [ -n "$(git -C /repo status --porcelain --untracked-files=no)" ]; then echo "repo dirty" >&2; exit 2; fi
-  if ! git -C /repo apply "$patch" 2>/dev/null; then echo "$s: patch does not apply (rebase it)"; fail=1; continue; fi
+  patch=$HERE/seeded/$s/patch.diff
+  [ -f $HERE/seeded/$s/patch_rebased.diff ] && patch=$HERE/seeded/$s/patch_rebased.diff
+  if [ -n "$(git -C "$REPO" status --porcelain --untracked-files=no)" ]; then echo "repo dirty" >&2; exit 2; fi
+  if ! git -C "$REPO" apply "$patch" 2>/dev/null; then echo "$s: patch does not apply (rebase it)"; fail=1; continue; fi
   if [ -n "${ONLY[$s]}" ]; then
-    GOVC_EVIDENCE_DIR=/verif/out/evidence_seed ./check $prop -only "${ONLY[$s]}" > /tmp/selftest_$s.log 2>&1; rc=$?
+    GOVC_EVIDENCE_DIR=$HERE/out/evidence_seed ./check $prop -only "${ONLY[$s]}" > /tmp/selftest_$s.log 2>&1; rc=$?
   else
-    GOVC_EVIDENCE_DIR=/verif/out/evidence_seed ./check $prop > /tmp/selftest_$s.log 2>&1; rc=$?
+    GOVC_EVIDENCE_DIR=$HERE/out/evidence_seed ./check $prop > /tmp/selftest_$s.log 2>&1; rc=$?
   fi
-  git -C /repo checkout -- .
+  git -C "$REPO" checkout -- .
   n=$(grep -c '^VIOLATION' /tmp/selftest_$s.log)
   if [ $rc -eq 1 ] && [ $n -gt 0 ]; then echo "$s: caught ($n violations)"; else echo "$s: MISSED (exit $rc, $n violations)"; fail=1; fi
 done
